@@ -30,6 +30,7 @@ from ..type import (
     assert_leaf_type,
     is_enum_type,
     is_input_object_type,
+    is_input_type,
     is_list_type,
     is_non_null_type,
     is_required_input_field,
@@ -126,7 +127,9 @@ def validate_input_value_impl(
                         f" field '{field_name}', found: {inspect(input_value)}.",
                         path,
                     )
-            else:
+            elif is_input_type(field.type):
+                # A field that is not of an input type cannot be validated
+                # (this is reported by schema validation).
                 validate_input_value_impl(
                     field_value,
                     field.type,
@@ -353,7 +356,9 @@ def validate_input_literal_impl(
                         value_node,
                         path,
                     )
-            else:
+            elif is_input_type(field.type):
+                # A field that is not of an input type cannot be validated
+                # (this is reported by schema validation).
                 field_value_node = field_node.value
                 if isinstance(field_value_node, VariableNode) and not context.static:
                     scoped_variable_values = get_scoped_variable_values(
